@@ -1,17 +1,19 @@
 (** C43 — Packet forwarding is all-or-nothing and conserves tokens.
-    Statements only; proofs in PfmRl/PfmFacts.v, model in PfmRl/Pfm.v (the definitions Corr/PfmRl.v replays against
-    real chains: [rstep]/[rrun] operation by operation and [route_run] route by route).
+    Statements only; proofs in PfmRl/PfmFacts.v (per chain) and PfmRl/PfmRoute.v (whole routes), model in
+    PfmRl/Pfm.v (the definitions Corr/PfmRl.v replays against real chains: [rstep]/[rrun] operation by operation and
+    [route_run] route by route).
 
-    Full statement (kept visible): for every line of chains c0 .. cn, every route along it, every outcome vector
-    (success | error ack | timeouts x retries per hop) and every [denom_safe] token, the end state has (final
-    receiver + amt) xor (origin sender refunded), every intermediate chain's override account, escrows, voucher
-    supply and total escrow as before (failure) or as after plain ICS-20 hops (success), no in-flight record, and the
-    forwarded denomination is the one ICS-20 credited.
-    Proved for ALL states, denominations, amounts, retry counts and failure positions: the per-chain theorems
-    (intermediate chain, origin chain, final chain, denomination agreement).  The composition along a route is proved
-    here for every outcome vector on a line of four chains ([C43_routes_bounded_partial], by evaluation of
-    [route_run]); the induction on the route length over arbitrary worlds is not mechanised. *)
-From IBC Require Import Lib.Bytes PfmRl.Pfm PfmRl.PfmFacts.
+    Full statement: for every line of chains c0 .. cn (any n), every route along it, every outcome vector (per hop:
+    any number of timeouts, answered by retries while the forward's retry budget lasts; delivery answered by a
+    success or an error acknowledgement as the receiving chain's code decides) and every [denom_safe] token, at
+    quiescence either (final receiver + amt, origin sender - amt, every intermediate chain's bank state = plain
+    ICS-20 receive + send, override accounts unchanged) or (every chain's balances, supplies, total escrows as
+    before); no in-flight record is created anywhere; the forwarded denomination is the one ICS-20 credited.
+    This is [C43_route_all_or_nothing] below, proved about [route_run] itself by induction over the nesting of the
+    forward memo ([deliver_spec] in PfmRoute.v), with the per-chain theorems as steps.  Its hypotheses ([route_pre])
+    are the line topology, the denomination guard [denom_ok] (necessary: [C43_refund_refuted_without_guard]),
+    non-negative balances, and freshness of the sequence numbers the route will use. *)
+From IBC Require Import Lib.Bytes PfmRl.Pfm PfmRl.PfmFacts PfmRl.PfmRoute.
 Local Open Scope Z_scope.
 
 (** The forwarded denomination is the one ICS-20 credited on the intermediate chain: structured form, and at the
@@ -90,14 +92,54 @@ Theorem C43_final_chain :
 Proof. exact (conj final_receive_credits receive_error_unchanged). Qed.
 Print Assumptions C43_final_chain.
 
-(** Whole routes (partial: bounded): on a line of four chains, for the origin's native token (winding), its voucher
-    on the way back (unwinding) and a middle chain's token (unwinding then winding), for every vector of timeouts per
-    hop in {0,1,2}, retries per forward hop in {0,1,2}, valid/invalid final receiver and existing/missing forward
-    channel: at quiescence either every chain's tracked ledger is exactly as before, or sender -amt / receiver +amt
-    with all override accounts unchanged; never an in-flight record left. *)
-Theorem C43_routes_bounded_partial : forward_cases_ok = true /\ unwind_cases_ok = true /\ mixed_cases_ok = true.
+(** Whole routes, any length, any outcome vector.  [route_run] = the origin's MsgTransfer followed by depth-first
+    relaying ([relay]) with [h_timeouts] timeouts per hop ([hs] must cover every hop).  Conclusions:
+    chains off the route are untouched; no chain's in-flight records change; and either every chain on the route has
+    its ledger (balances, supplies, total escrows, in-flight) exactly as before — nothing —, or — all — the origin's
+    bank state is that of a plain ICS-20 send (sender debited by [amt]) and [down_ok] holds: every forwarding chain's
+    bank state is ICS-20 receive into the override account + ICS-20 send from it, its override account holds what it
+    held before, and the final receiver holds [amt] more of the denomination ICS-20 credits on the last chain. *)
+Theorem C43_route_all_or_nothing peer w c sender ch d amt recv memo hs :
+  (forall a d', 0 <= bal (w c) a d') -> infl (w c) ch (nseq (w c) ch) = None -> sender <> AEscrow ch ->
+  route_pre peer w [c] c ch (nseq (w c) ch) d memo recv ->
+  (S (depth memo) <= length hs)%nat ->
+  let w' := route_run peer w c sender ch d amt recv memo hs in
+  let rc := route_chains peer c ch memo in
+  (forall x, x <> c -> ~ In x rc -> w' x = w x) /\
+  (forall e c' s, infl (w' e) c' s = infl (w e) c' s) /\
+  ((forall e, e = c \/ In e rc -> ledger_eq (w' e) (w e))
+   \/ ((exists css, ics_send (w c) sender ch d amt = Some css /\ bse_eq (w' c) css) /\
+       bal (w' c) sender d = bal (w c) sender d - amt /\
+       down_ok peer w w' c ch d amt sender recv memo)).
+Proof. exact (route_all_or_nothing peer w c sender ch d amt recv memo hs). Qed.
+Print Assumptions C43_route_all_or_nothing.
+
+(** ... in particular no in-flight record is left anywhere if there was none *)
+Theorem C43_route_leaves_no_inflight peer w c sender ch d amt recv memo hs :
+  (forall a d', 0 <= bal (w c) a d') -> infl (w c) ch (nseq (w c) ch) = None -> sender <> AEscrow ch ->
+  route_pre peer w [c] c ch (nseq (w c) ch) d memo recv -> (S (depth memo) <= length hs)%nat ->
+  (forall e c' s, infl (w e) c' s = None) ->
+  forall e c' s, infl (route_run peer w c sender ch d amt recv memo hs e) c' s = None.
+Proof. exact (route_leaves_no_inflight peer w c sender ch d amt recv memo hs). Qed.
+Print Assumptions C43_route_leaves_no_inflight.
+
+(** The same composition evaluated by the kernel on a line of four chains, for the origin's native token (winding),
+    its voucher on the way back (unwinding) and a middle chain's token (unwinding then winding), for every vector of
+    timeouts per hop in {0,1,2}, retries per forward hop in {0,1,2}, valid/invalid final receiver and existing/missing
+    forward channel (a cross-check of the general theorem on concrete worlds; both outcomes occur). *)
+Theorem C43_routes_line4_evaluated : forward_cases_ok = true /\ unwind_cases_ok = true /\ mixed_cases_ok = true.
 Proof. exact routes_bounded_all_or_nothing. Qed.
-Print Assumptions C43_routes_bounded_partial.
+Print Assumptions C43_routes_line4_evaluated.
+
+(** non-vacuity of [C43_route_all_or_nothing]: its hypotheses hold for a three-hop forward (one retry allowed on the
+    second hop, outcome vector 0/1/0 timeouts) on the four-chain line *)
+Example C43_route_hypotheses_nonvacuous :
+  (forall a d', 0 <= bal (line_world 0%N) a d') /\
+  infl (line_world 0%N) 0%N (nseq (line_world 0%N) 0%N) = None /\
+  AUser 1 <> AEscrow 0 /\
+  route_pre line_peer line_world [0%N] 0%N 0%N (nseq (line_world 0%N) 0%N) native line_memo None /\
+  (S (depth line_memo) <= length [mkH 0; mkH 1; mkH 0])%nat.
+Proof. exact line_route_instance. Qed.
 
 (** non-vacuity: a three-hop forward delivers, debits the sender, and leaves escrow/voucher supply on the way *)
 Example C43_nonvacuous :
